@@ -75,6 +75,7 @@ var Schemas = map[string]string{
         leaf r1 { type string; }
         choice late { leaf r2 { type string; } leaf r3 { type string; } }
       }
+      case t { choice only { leaf t1 { type string; } case t2c { choice deeper { leaf t2 { type string; } } } } }
     }
   }
   list e { key k; leaf k { type string; }
